@@ -2,9 +2,9 @@ from vf.props.common import *
 EXPLANATION = ('cbmc, self-composition on the real soxr_create / soxr_clear / soxr_delete0 / initialise over the abstract engine: the object '
                'right after creation (the fresh state) is snapshotted, ANY history is applied (history-dependent scalars arbitrary, '
                'soxr_set_io_ratio and soxr_set_input_fn really called, engines used and flushed), then soxr_clear: every behaviour-relevant '
-               'field of struct soxr and every argument the engines are re-created with equals the fresh snapshot; nothing is leaked.')
+               'field of struct soxr and every argument the engines are re-created with equals the fresh snapshot; nothing is leaked. Process-wide VR tables: two real vr_init calls with symbolic gains A, B (each with or without decimation stages) and one real vr_process call of the second instance: it applies gain B (path-wise symbolic execution).')
 ASSUMPTIONS = ['dither seed excluded (fresh objects take it from time(); the property sets dither aside)',
-               'process-wide static tables of the variable-rate engine and the FFT cache are below the abstract engine: see DESIGN.md (C10 static-table part is not claimed here)']
+               'FFT-cache tables (bit-identity across cache growth) are below the abstract engine and not decided; the VR coefficient tables are decided with DC-gain semantics (goto-level substitution of prepare_coefs / per-sample kernels / IIR pair)']
 
 def obligations(tier):
     obls = []
@@ -13,4 +13,5 @@ def obligations(tier):
             obls.append(create_obl(2, kind, ch))
     if tier == 'thorough':
         obls += [create_obl(2, 0, 2), create_obl(2, 1, 2), create_obl(2, 2, 2, orate='4.0')]
+    obls += [vr_tables_obl(0), vr_tables_obl(1), vr_tables_obl(1, astages=0), vr_tables_obl(0, astages=1)]      # process-wide VR coefficient tables vs a second instance with another gain
     return obls
